@@ -17,6 +17,7 @@ property's quantifier).
 -/
 import Mqtt.Proofs.BrokerFanoutGen
 import Mqtt.Proofs.BrokerRefineCor
+import Mqtt.Proofs.BrokerRefineCorX
 import Mqtt.Proofs.BrokerAckOrder
 
 set_option linter.unusedSimpArgs false
@@ -447,5 +448,27 @@ theorem C07_refines_reference (es : List Ev) (hok : okRun {} es = true) (c id : 
       rw [List.all_eq_true]; exact hg
     obtain ⟨r1, r2, r3⟩ := Mqtt.Proofs.BrokerRefine.reach_step es hok _ hokev
     exact ⟨r2, (Mqtt.Proofs.BrokerRefine.unsubscribe_refines hR c hl id ts hg).1, r1.held⟩
+
+open Mqtt.Proofs.BrokerRefine (EvX okRunX runX specRunX) in
+open Mqtt.Spec.Broker (Accepts) in
+/-- **C07_refines_reference after a history with failed handshakes** (Proofs/BrokerRefineFail.lean:
+`BrokerX_refines_spec`).  The same statement for SUBSCRIBE / UNSUBSCRIBE on a live connection, after a
+history that may also contain first packets whose answer could not be written (`EvX.failFirst`). -/
+theorem C07_refines_reference_with_failed_handshakes (es : List EvX) (hok : okRunX {} es = true) (c id : Nat)
+    (hl : (runX {} es).1.alive c = true) :
+    (∀ ts : List (Bytes × Nat), (∀ tq ∈ ts, good tq.1 = true) →
+      Accepts (Mqtt.Spec.Broker.step (specRunX {} es).1 (.packet c (.subscribe id ts))).2
+        (step (runX {} es).1 (.packet c (.subscribe id ts))).2 ∧
+      (∃ rest, (step (runX {} es).1 (.packet c (.subscribe id ts))).2 =
+        .send c (.suback id (ts.map (fun t => Mqtt.Spec.Broker.subCode t.1 t.2))) :: rest) ∧
+      HeldInv (step (runX {} es).1 (.packet c (.subscribe id ts))).1.topics.sroot
+        (Mqtt.Spec.Broker.step (specRunX {} es).1 (.packet c (.subscribe id ts))).1.held) ∧
+    (∀ ts : List Bytes, (∀ t ∈ ts, good t = true) →
+      Accepts (Mqtt.Spec.Broker.step (specRunX {} es).1 (.packet c (.unsubscribe id ts))).2
+        (step (runX {} es).1 (.packet c (.unsubscribe id ts))).2 ∧
+      (step (runX {} es).1 (.packet c (.unsubscribe id ts))).2 = [.send c (.unsuback id)] ∧
+      HeldInv (step (runX {} es).1 (.packet c (.unsubscribe id ts))).1.topics.sroot
+        (Mqtt.Spec.Broker.step (specRunX {} es).1 (.packet c (.unsubscribe id ts))).1.held) :=
+  Mqtt.Proofs.BrokerRefine.subunsub_refinesX es hok c id hl
 
 end Mqtt.Properties.C07
